@@ -187,7 +187,7 @@ func ruleGetTemplate(c *Ctx, r *Repo, ip *packages.Package) {
 	okBuiltin := false
 	ast.Inspect(fd.Body, func(n ast.Node) bool {
 		if call, ok := n.(*ast.CallExpr); ok && strings.HasSuffix(calleeName(info, call), "gojsonschema.NewStringLoader") && len(call.Args) == 1 {
-			if types.ExprString(call.Args[0]) == "jsonSchemas[g.templateName]" {
+			if newFuncCanon(info, fd).E(call.Args[0]) == "jsonSchemas[RECV.templateName]" {
 				okBuiltin = true
 			}
 		}
@@ -356,7 +356,7 @@ func ruleValidateSchema(c *Ctx, r *Repo, rule string) {
 		if okFile {
 			c.OK(rule, "validateSchema|file-level", r.Pos(fd.Pos()), "file-level template-data validated; failures returned")
 		}
-		rs := rangeOver(fd, ".Interfaces")
+		rs := rangeOverC(ip, fd, "ARG1.Interfaces")
 		if rs == nil {
 			c.Fail(rule, "validateSchema|interface-loop", r.Pos(fd.Pos()), "no loop over data.Interfaces")
 		} else {
